@@ -8,11 +8,11 @@ import codelimit.common.lexer_utils as lu
 from codelimit.common.Location import Location
 from codelimit.common.Token import Token
 from codelimit.common.source_utils import filter_tokens, get_newline_indices, location_to_index
-from vlib.hx import fin, param
+from vlib.hx import fin, param, untraced
 
 K = param("K", 2)
 ALLOW_EMPTY = param("allow_empty", True)
-KINDS = [PT.Name, PT.Text, PT.Text.Whitespace, PT.Comment.Single]
+KINDS = [PT.Name, PT.Text, PT.Text.Whitespace, PT.Comment.Single, PT.Comment]      # bare Comment: what the C lexers give `#if 0` regions
 K0 = param("k0", None)
 FIXED_KIND = param("fixed_kind", False)   # position harness: all three tokens are non-empty Names
 
@@ -142,3 +142,68 @@ def h_filter(k: int, v: str, keep_c: bool, keep_w: bool) -> bool:
     kept = filter_tokens([t], keep_whitespace=keep_w, keep_comments=keep_c)
     exp = keep_w if ws else (keep_c if cm else True)
     return fin(ok and (len(kept) == 1) == exp, ws)
+
+
+# ----------------------------------------------------------------------------------------------- lexing is a pure function of the text (no state carried from one call to the next)
+CHARS = ["a", "\n", " ", "\r", "\x0c", ";"]
+FIX_A0 = param("fix_a0", None)
+
+
+class CharLexer:
+    """every character is one token at its own offset (whitespace characters as Text)"""
+    def get_tokens_unprocessed(self, code):
+        for i, c in enumerate(code):
+            yield (i, PT.Text if c.isspace() else PT.Name, c)
+
+
+def _pick(x, n):
+    for k in range(n):
+        if x == k:
+            return k
+    return 0
+
+
+@untraced
+def _lex_sequence(texts):
+    """lex each text of the sequence in turn; every result must be the oracle's for that text alone, and get_newline_indices must keep answering from the text."""
+    bad = []
+    for code in texts:
+        nls = [i for i, c in enumerate(code) if c == "\n"]
+        if get_newline_indices(code) != nls:
+            bad.append("newline-indices-before")
+        toks = lu.lex(CharLexer(), code, False)
+        exp = [(oracle(i, nls), c) for i, c in enumerate(code) if not c.isspace()]
+        got = [((t.location.line, t.location.column), t.value) for t in toks]
+        if got != exp:
+            bad.append("positions")
+        if get_newline_indices(code) != nls:
+            bad.append("newline-indices-after")
+    return sorted(set(bad))
+
+
+def h_lex_twice(a0: int, a1: int, a2: int, a3: int, b0: int, b1: int, mode: int) -> bool:
+    """
+    pre: all(0 <= x < len(CHARS) for x in [a0, a1, a2, a3, b0, b1]) and 0 <= mode <= 2 and (FIX_A0 is None or a0 == FIX_A0) and a3 == 0 and b1 == 0
+    post: _
+    """
+    a = "".join(CHARS[_pick(x, len(CHARS))] for x in [a0, a1, a2, a3])
+    b = "".join(CHARS[_pick(x, len(CHARS))] for x in [b0, b1])
+    m = _pick(mode, 3)
+    seq = [a, a] if m == 0 else [a, b, a] if m == 1 else [a, a, a]
+    return fin(_lex_sequence(seq) == [], m == 1)
+
+
+def real_h_lex_twice(a0, a1, a2, a3, b0, b1, mode):
+    from pygments.lexers import get_lexer_by_name
+    from codelimit.common.lexer_utils import lex
+    a = "".join(CHARS[x] for x in [a0, a1, a2, a3])
+    b = "".join(CHARS[x] for x in [b0, b1])
+    seq = [a, a] if mode == 0 else [a, b, a] if mode == 1 else [a, a, a]
+    lexer = get_lexer_by_name("c")
+    first = [(t.location.line, t.location.column, t.value) for t in lex(lexer, seq[0], False)]
+    res = []
+    for code in seq:
+        res.append([(t.location.line, t.location.column, t.value) for t in lex(lexer, code, False)])
+    # the first call of a process is the reference for its text; a later call on the same text must agree
+    diff = [i for i, code in enumerate(seq) if code == seq[0] and res[i] != first]
+    return {"reproduced": bool(diff), "sig": "lex:result-depends-on-earlier-calls", "detail": f"real C lexer, texts {seq!r}: call #{diff[0] if diff else None} differs from the first call on the same text: {res}"}
